@@ -1,6 +1,7 @@
 import Spine.RegistryMore
 import Spine.RegObjThm
 import Spine.RegData
+import Spine.RegWire
 /-!
 # C08 — subscriptions: exact registry and exactly-once notification fan-out
 
@@ -410,5 +411,41 @@ example : (Reg.run {} loc rem hist).subNum = 4 ∧ (Reg.subsOf (Reg.run {} loc r
 /-- non-vacuity: ids after a refused duplicate (the id is drawn before the duplicate check) and a delete -/
 example : ((Reg.run {} loc rem (hist ++ [.unsub 2 0 [1] 1 [1] 1, .sub 2 [1] 1 [1] 1 1])).subs.map (·.id)) = [1, 3, 5] ∧
     (Reg.subsOf (Reg.run {} loc rem hist) 2).map (·.id) = [2] := by decide
+
+/-! ### … the list sent over the wire (reply to a read of the subscription data: `processReadSubscriptionData`) -/
+
+/-- The list sent to peer `p` over the wire IS `Subscriptions(p)`: what the peer reads out of the reply is the
+    manager's list of that peer — same length, same order, every wire entry carrying ITS OWN registry entry's id, server
+    address and client address (model `Spine.RegWire`, the member the regenerated table `WireReply` selects). -/
+theorem c08_wire_list_is_subscriptions (s : Reg.St) (p : Nat) :
+    (RegWire.readSubs false s p).map RegWire.decode = Reg.subsOf s p ∧
+    (∀ i : Nat, (RegWire.readSubs false s p)[i]? = ((Reg.subsOf s p)[i]?).map RegWire.entryOf) :=
+  ⟨RegWire.wire_eq_list _, RegWire.wire_entrywise _⟩
+
+/-- … exactly that peer's entries: every wire entry is an entry of the registry held by `p`'s connection, and every
+    such entry is on the wire. -/
+theorem c08_wire_list_exact (s : Reg.St) (p : Nat) (w : RegWire.WEntry) :
+    w ∈ RegWire.readSubs false s p ↔ ∃ e ∈ s.subs, e.peer = p ∧ w = RegWire.entryOf e := by
+  simp only [RegWire.readSubs, RegWire.buildReply, Bool.false_eq_true, if_false, List.mem_map, Reg.subsOf, List.mem_filter,
+    decide_eq_true_eq]
+  constructor
+  · rintro ⟨e, ⟨he, hp⟩, rfl⟩; exact ⟨e, he, hp, rfl⟩
+  · rintro ⟨e, he, hp, rfl⟩; exact ⟨e, ⟨he, hp⟩, rfl⟩
+
+/-- … each with a distinct id, on the wire too (every member, every history). -/
+theorem c08_wire_ids_distinct (c : Reg.Cfg) (loc : List Reg.Feat) (rem : Nat → List Reg.Feat) (ops : List Reg.Op) (p : Nat) :
+    ((RegWire.readSubs false (Reg.run c loc rem ops) p).map (·.id)).Nodup := by
+  rw [RegWire.readSubs, RegWire.wire_ids]
+  exact List.Nodup.sublist (List.Sublist.map _ List.filter_sublist) (c08_ids_distinct c loc rem ops)
+
+/-- REFUTED for the member that shares one id variable between the entries of the reply (a seeded regression; the
+    regenerated table `WireReply` excludes it for the tree under test): two subscriptions go out under one id. -/
+theorem c08_wire_aliased_id_refuted :
+    (RegWire.buildReply true [⟨1, [1], 1, 1, [1], 1⟩, ⟨2, [1], 2, 1, [1], 2⟩]).map (·.id) = [2, 2] :=
+  RegWire.wire_alias_refuted
+
+/-- non-vacuity: peer 1 holds two subscriptions (ids 1 and 3), peer 2 one (id 2); each reads its own over the wire -/
+example : RegWire.readSubs false (Reg.run {} loc rem hist) 1 = [⟨1, [1], 1, 1, [1], 1⟩, ⟨3, [1], 2, 1, [1], 3⟩] ∧
+    RegWire.readSubs false (Reg.run {} loc rem hist) 2 = [⟨2, [1], 1, 2, [1], 1⟩] := by decide
 
 end Spine.Props.C08
